@@ -5,7 +5,7 @@
 use vstd::prelude::*;
 verus! {
 
-broadcast use vstd::seq_lib::group_seq_properties;
+// (no broadcast groups: keep queries small and failures fast)
 
 // ---- std combinators without a vstd specification ------------------------------------
 pub assume_specification<T, F: FnOnce(T) -> bool> [Option::<T>::is_some_and] (o: Option<T>, f: F) -> (r: bool)
@@ -371,6 +371,156 @@ impl<P, T> vstd::std_specs::convert::FromSpecImpl<ProtocolError> for PubError<P,
 } // verus!
 
 // ======================================================================================
+// 07_encoder: entry points of the serde encoder (Kani leaves) as ASSUMED contracts.
+// `Encodable` stands for the bound `serde::Serialize + ControlPacket`.
+// ======================================================================================
+verus! {
+
+#[derive(Copy, Clone, PartialEq, Eq, Structural)]
+pub enum QoS {
+    AtMostOnce,
+    AtLeastOnce,
+    ExactlyOnce,
+}
+#[derive(Copy, Clone, PartialEq, Eq, Structural)]
+pub enum Retain {
+    NotRetained,
+    Retained,
+}
+
+/// MQTT variable byte integer (1..4 bytes, minimal length) — Appendix B of DESIGN.md
+pub open spec fn enc_varint(x: nat) -> Seq<u8>
+    decreases x
+{
+    if x < 128 { seq![x as u8] } else { seq![((x % 128) + 128) as u8] + enc_varint(x / 128) }
+}
+
+/// `p` is one framed MQTT packet: first byte, canonical remaining length, exactly that many bytes
+pub open spec fn framed(p: Seq<u8>) -> bool {
+    exists|n: nat| n <= 0x0FFF_FFFF && (#[trigger] enc_varint(n)).len() + 1 + n == p.len()
+        && p.subrange(1, 1 + enc_varint(n).len() as int) == enc_varint(n)
+}
+
+pub trait Encodable {
+    /// the packet as the encoder lays it out (fixed header ++ body)
+    spec fn enc(&self) -> Seq<u8>;
+    /// None when the packet cannot be encoded at all (a field longer than 65535 bytes)
+    spec fn encodable(&self) -> bool;
+}
+
+#[verifier::external_body]
+#[verifier::reject_recursive_types(P)]
+pub struct PayloadSpec<P> { _p: core::marker::PhantomData<P> }
+
+pub trait ToPayload: Sized {
+    type Error;
+    fn serialize(self, buffer: &mut [u8]) -> Result<usize, Self::Error>;
+}
+
+#[derive(Copy, Clone)]
+pub struct Utf8String<'a>(pub &'a str);
+pub enum Property<'a> {
+    PayloadFormatIndicator(u8),
+    MessageExpiryInterval(u32),
+    ContentType(&'a str),
+    ResponseTopic(&'a str),
+    CorrelationData(&'a [u8]),
+    SubscriptionIdentifier(u32),
+    SessionExpiryInterval(u32),
+    AssignedClientIdentifier(&'a str),
+    ServerKeepAlive(u16),
+    AuthenticationMethod(&'a str),
+    AuthenticationData(&'a [u8]),
+    RequestProblemInformation(u8),
+    WillDelayInterval(u32),
+    RequestResponseInformation(u8),
+    ResponseInformation(&'a str),
+    ServerReference(&'a str),
+    ReasonString(&'a str),
+    ReceiveMaximum(u16),
+    TopicAliasMaximum(u16),
+    TopicAlias(u16),
+    MaximumQoS(u8),
+    RetainAvailable(u8),
+    UserProperty(&'a str, &'a str),
+    MaximumPacketSize(u32),
+    WildcardSubscriptionAvailable(u8),
+    SubscriptionIdentifierAvailable(u8),
+    SharedSubscriptionAvailable(u8),
+}
+pub enum PropertiesData<'a> {
+    Slice(&'a [Property<'a>]),
+    Encoded(&'a [u8]),
+    WithCorrelation {
+        correlation: Property<'a>,
+        properties: &'a [Property<'a>],
+    },
+}
+pub struct Properties<'a> {
+    pub inner: PropertiesData<'a>,
+}
+pub struct PublishHeader<'a> {
+    pub topic: Utf8String<'a>,
+    pub packet_id: Option<u16>,
+    pub properties: Properties<'a>,
+    pub retain: Retain,
+    pub qos: QoS,
+    pub dup: bool,
+}
+
+/// the PUBLISH packet the encoder lays out for this header and payload
+pub uninterp spec fn enc_publish<P>(h: PublishHeader, payload: P) -> Seq<u8>;
+
+pub struct MqttSerializer {}
+impl MqttSerializer {
+    #[verifier::external_body]
+    pub fn encode_with_offset<'b, T: Encodable>(buf: &'b mut [u8], packet: &T) -> (r: Result<(usize, &'b [u8]), SerError>)
+        ensures
+            final(buf)@.len() == old(buf)@.len(),
+            match r {
+                Ok((off, p)) => off + p@.len() <= old(buf)@.len() && p@.len() >= 2
+                    && p@ == final(buf)@.subrange(off as int, off + p@.len())
+                    && p@ == packet.enc() && framed(p@),
+                Err(e) => true,
+            },
+    { unimplemented!() }
+
+    #[verifier::external_body]
+    pub fn encode_publish_with_offset<'b, P: ToPayload>(buf: &'b mut [u8], header: &PublishHeader<'_>, payload: P) -> (r: Result<(usize, &'b [u8]), SerPubError<P::Error>>)
+        ensures
+            final(buf)@.len() == old(buf)@.len(),
+            match r {
+                Ok((off, p)) => off + p@.len() <= old(buf)@.len() && p@.len() >= 2
+                    && p@ == final(buf)@.subrange(off as int, off + p@.len())
+                    && p@ == enc_publish(*header, payload) && framed(p@),
+                Err(e) => true,
+            },
+    { unimplemented!() }
+
+    #[verifier::external_body]
+    pub fn encode_publish<'b, P: ToPayload>(buf: &'b mut [u8], header: &PublishHeader<'_>, payload: P) -> (r: Result<&'b [u8], SerPubError<P::Error>>)
+        ensures
+            final(buf)@.len() == old(buf)@.len(),
+            match r {
+                Ok(p) => p@.len() <= old(buf)@.len() && p@.len() >= 2 && p@ == enc_publish(*header, payload) && framed(p@),
+                Err(e) => true,
+            },
+    { unimplemented!() }
+
+    #[verifier::external_body]
+    pub fn encode<'b, T: Encodable>(buf: &'b mut [u8], packet: &T) -> (r: Result<&'b [u8], SerError>)
+        ensures
+            final(buf)@.len() == old(buf)@.len(),
+            match r {
+                Ok(p) => p@.len() <= old(buf)@.len() && p@.len() >= 2 && p@ == packet.enc() && framed(p@),
+                Err(e) => true,
+            },
+    { unimplemented!() }
+}
+
+} // verus!
+
+// ======================================================================================
 // 10_outbound: src/mqtt_client/outbound.rs  — SendState, Outbound (all methods)
 // ======================================================================================
 verus! {
@@ -469,6 +619,37 @@ pub open spec fn ret_of(buf: Seq<u8>, e: RetainedPacket) -> Ret {
 }
 pub open spec fn rets(buf: Seq<u8>, r: Seq<RetainedPacket>) -> Seq<Ret> {
     Seq::new(r.len(), |i: int| ret_of(buf, r[i]))
+}
+
+/// entry-wise equality of two retained lists up to arena offsets (bytes compared extensionally)
+pub open spec fn same_entries(b1: Seq<u8>, r1: Seq<RetainedPacket>, b2: Seq<u8>, r2: Seq<RetainedPacket>) -> bool {
+    &&& r1.len() == r2.len()
+    &&& forall|i: int| 0 <= i < r1.len() ==> {
+            let a = #[trigger] r1[i]; let b = r2[i];
+            a.packet_id == b.packet_id && a.len == b.len && a.state == b.state
+            && bytes_of(b1, a) =~= bytes_of(b2, b)
+        }
+}
+pub proof fn lemma_same_entries_rets(b1: Seq<u8>, r1: Seq<RetainedPacket>, b2: Seq<u8>, r2: Seq<RetainedPacket>)
+    requires same_entries(b1, r1, b2, r2)
+    ensures rets(b1, r1) =~= rets(b2, r2)
+{
+    assert forall|i: int| 0 <= i < r1.len() implies rets(b1, r1)[i] == rets(b2, r2)[i] by {
+        let a = r1[i];
+        assert(bytes_of(b1, r1[i]) =~= bytes_of(b2, r2[i]));
+    }
+}
+pub proof fn lemma_rets_same_entries(b1: Seq<u8>, r1: Seq<RetainedPacket>, b2: Seq<u8>, r2: Seq<RetainedPacket>)
+    requires rets(b1, r1) =~= rets(b2, r2)
+    ensures same_entries(b1, r1, b2, r2)
+{
+    assert(rets(b1, r1).len() == rets(b2, r2).len());
+    assert forall|i: int| 0 <= i < r1.len() implies ({
+            let a = #[trigger] r1[i]; let b = r2[i];
+            a.packet_id == b.packet_id && a.len == b.len && a.state == b.state
+            && bytes_of(b1, a) =~= bytes_of(b2, b) }) by {
+        assert(rets(b1, r1)[i] == rets(b2, r2)[i]);
+    }
 }
 
 pub open spec fn prefix_sum(r: Seq<RetainedPacket>, n: int) -> int decreases n {
@@ -652,6 +833,29 @@ pub proof fn lemma_prefix_sum_ext(a: Seq<RetainedPacket>, b: Seq<RetainedPacket>
 {
     if n > 0 { lemma_prefix_sum_ext(a, b, n - 1); }
 }
+pub proof fn lemma_prefix_sum_mono(r: Seq<RetainedPacket>, a: int, b: int)
+    requires 0 <= a <= b,
+    ensures prefix_sum(r, a) <= prefix_sum(r, b)
+    decreases b - a
+{
+    if a < b { lemma_prefix_sum_mono(r, a, b - 1); }
+}
+/// removing one entry keeps the arena layout well-formed and the other entries' bytes
+pub proof fn lemma_remove_packed(buf: Seq<u8>, used: int, r: Seq<RetainedPacket>, k: int)
+    requires packed_ok(buf.len() as int, used, r), 0 <= k < r.len(),
+    ensures packed_ok(buf.len() as int, used, r.remove(k)),
+        rets(buf, r.remove(k)) =~= rets(buf, r).remove(k),
+{
+    let t = r.remove(k);
+    assert forall|i: int| 0 <= i < t.len() implies (#[trigger] t[i]).offset + t[i].len <= used by {
+        if i < k { assert(t[i] == r[i]); } else { assert(t[i] == r[i + 1]); }
+    }
+    assert forall|i: int, j: int| 0 <= i < j < t.len() implies (#[trigger] t[i]).offset + t[i].len <= (#[trigger] t[j]).offset by {
+        let ii = if i < k { i } else { i + 1 };
+        let jj = if j < k { j } else { j + 1 };
+        assert(t[i] == r[ii] && t[j] == r[jj]);
+    }
+}
 /// a compacted arena: offsets are the prefix sums and `used` is the total
 pub open spec fn compacted(o: Outbound) -> bool {
     &&& forall|i: int| 0 <= i < o.retained@.len() ==> (#[trigger] o.retained@[i]).offset == prefix_sum(o.retained@, i)
@@ -788,6 +992,210 @@ fn can_retain(&self) -> (r: bool)
 {
         self.retained.len() < self.retained.capacity()
             && self.scratch_len() >= MAX_FIXED_HEADER_SIZE
+    }
+
+fn compact(&mut self)
+    requires
+        wf(*old(self)),
+    ensures
+        bv(*final(self)).len() == bv(*old(self)).len() && same_queues(*final(self), *old(self)),
+        rets(bv(*final(self)), final(self).retained@) =~= rets(bv(*old(self)), old(self).retained@),
+        compacted(*final(self)),
+        wf(*final(self)),
+{
+        let previous_used = self.used;
+
+        let mut cursor = 0;
+        let mut moved = 0;
+        let mut __i1: usize = 0;
+        while __i1 < self.retained.len() 
+            invariant
+                __i1 <= self.retained@.len(),
+                self.retained@.len() == old(self).retained@.len(),
+                self.retained@.len() <= 8,
+                bv(*self).len() == bv(*old(self)).len(),
+                same_queues(*self, *old(self)),
+                cursor == prefix_sum(old(self).retained@, __i1 as int),
+                cursor <= bv(*self).len(),
+                0 <= moved <= __i1,
+                wf(*old(self)),
+                forall|j: int| __i1 <= j < self.retained@.len() ==> #[trigger] self.retained@[j] == old(self).retained@[j],
+                __i1 < self.retained@.len() ==> cursor <= old(self).retained@[__i1 as int].offset,
+                forall|k: int| (if __i1 < self.retained@.len() { old(self).retained@[__i1 as int].offset as int } else { bv(*self).len() as int }) <= k < bv(*self).len() ==> #[trigger] bv(*self)[k] == bv(*old(self))[k],
+                forall|i: int| 0 <= i < __i1 ==> {
+                    let a = #[trigger] self.retained@[i]; let b = old(self).retained@[i];
+                    a.packet_id == b.packet_id && a.len == b.len && a.state == b.state
+                    && a.offset == prefix_sum(old(self).retained@, i)
+                    && a.offset + a.len <= cursor
+                    && bytes_of(bv(*self), a) =~= bytes_of(bv(*old(self)), b)
+                },
+            decreases self.retained@.len() - __i1
+{
+            proof {
+                assert(self.retained@[__i1 as int] == old(self).retained@[__i1 as int]);
+                assert(old(self).retained@[__i1 as int].offset + old(self).retained@[__i1 as int].len <= old(self).used);
+                if __i1 + 1 < self.retained@.len() {
+                    assert(old(self).retained@[__i1 as int].offset + old(self).retained@[__i1 as int].len <= old(self).retained@[__i1 as int + 1].offset);
+                }
+            }
+
+            let entry = self.retained.at_mut(__i1);
+            if entry.offset != cursor {
+                slice_copy_within(self.buf, entry.offset, entry.offset + entry.len, cursor);
+                entry.offset = cursor;
+                moved += 1;
+            }
+            cursor += entry.len;
+            __i1 += 1;
+        }
+        self.used = cursor;
+        proof {
+            let n = self.retained@.len() as int;
+            lemma_prefix_sum_ext(self.retained@, old(self).retained@, n);
+            assert forall|i: int| 0 <= i < n implies (#[trigger] self.retained@[i]).offset == prefix_sum(self.retained@, i) by {
+                lemma_prefix_sum_ext(self.retained@, old(self).retained@, i);
+            }
+            assert forall|i: int, j: int| 0 <= i < j < n implies (#[trigger] self.retained@[i]).offset + self.retained@[i].len <= (#[trigger] self.retained@[j]).offset by {
+                lemma_prefix_sum_mono(old(self).retained@, i + 1, j);
+            }
+            assert forall|i: int| 0 <= i < n implies (#[trigger] self.retained@[i]).offset + self.retained@[i].len <= cursor by {
+                lemma_prefix_sum_mono(old(self).retained@, i + 1, n);
+            }
+        }
+
+        if moved != 0 || previous_used != self.used {
+
+        }
+    }
+
+fn scratch_space(&mut self) -> (r: &mut [u8])
+    requires
+        wf(*old(self)),
+    ensures
+        r@.len() == bv(*old(self)).len() - total_len(*old(self)),
+        final(self).retained@.len() == old(self).retained@.len() && same_queues(*final(self), *old(self)) && bv(*final(self)).len() == bv(*old(self)).len(),
+        same_entries(bv(*final(self)), final(self).retained@, bv(*old(self)), old(self).retained@),
+        wf(*final(self)) && compacted(*final(self)),
+{
+        self.compact();
+        proof {
+            let n = self.retained@.len() as int;
+            lemma_rets_same_entries(bv(*self), self.retained@, bv(*old(self)), old(self).retained@);
+            lemma_prefix_sum_ext(self.retained@, old(self).retained@, n);
+        }
+
+        &mut self.buf[self.used..]
+    }
+
+fn queue_control(&mut self, action: ControlAction) -> (r: Result<(), ProtocolError>)
+    requires
+        wf(*old(self)),
+    ensures
+        old(self).pending_control@.len() < MAX_PENDING_CONTROL ==> r is Ok
+            && final(self).pending_control@ == old(self).pending_control@.push(PendingControl { action, state: SendState::Write { written: 0 } }),
+        old(self).pending_control@.len() >= MAX_PENDING_CONTROL ==> r == Err::<(), ProtocolError>(ProtocolError::InflightMetadataExhausted)
+            && final(self).pending_control@ == old(self).pending_control@,
+        final(self).retained@ == old(self).retained@ && final(self).pending_release@ == old(self).pending_release@
+            && final(self).used == old(self).used && bv(*final(self)) == bv(*old(self)),
+        wf(*final(self)),
+{
+        (match self.pending_control
+            .push(PendingControl {
+                action,
+                state: SendState::Write { written: 0 },
+            }) { Ok(__v) => Ok(__v), Err(_) => Err(ProtocolError::InflightMetadataExhausted) })
+    }
+
+fn has_pending_pingreq(&self) -> (r: bool)
+    ensures
+        r == (exists|i: int| 0 <= i < self.pending_control@.len() && (#[trigger] self.pending_control@[i]).action == ControlAction::PingReq && self.pending_control@[i].state != SendState::Sent),
+{
+        self.pending_control.any_of(|entry| -> (__r: bool) ensures __r == (matches!(entry.action, ControlAction::PingReq) && entry.state != SendState::Sent) { matches!(entry.action, ControlAction::PingReq) && entry.state != SendState::Sent })
+    }
+
+fn ack_packet(&mut self, packet_id: u16) -> (r: bool)
+    requires
+        wf(*old(self)),
+    ensures
+        r == has_ret(old(self).retained@, packet_id),
+        !r ==> same_outbound(*final(self), *old(self)),
+        r ==> rets(bv(*final(self)), final(self).retained@) =~= rets(bv(*old(self)), old(self).retained@).remove(first_ret(old(self).retained@, packet_id)),
+        same_queues(*final(self), *old(self)) && bv(*final(self)).len() == bv(*old(self)).len(),
+        wf(*final(self)) && (r ==> compacted(*final(self))),
+{
+        let Some(position) = self
+            .retained.position_of(|entry| -> (__r: bool) ensures __r == (entry.packet_id == packet_id) { entry.packet_id == packet_id })
+        else {
+            return false;
+        };
+        self.retained.remove(position);
+        proof {
+            lemma_first_ret(old(self).retained@, packet_id, position as int);
+            lemma_remove_packed(bv(*old(self)), old(self).used as int, old(self).retained@, position as int);
+        }
+
+        self.compact();
+        true
+    }
+
+fn has_retained(&self, packet_id: u16) -> (r: bool)
+    ensures
+        r == has_ret(self.retained@, packet_id),
+{
+        self.retained.any_of(|entry| -> (__r: bool) ensures __r == (entry.packet_id == packet_id) { entry.packet_id == packet_id })
+    }
+
+fn queue_release(
+        &mut self,
+        packet_id: u16,
+        reason: ReasonCode,
+    ) -> (r: Result<(), ProtocolError>)
+    requires
+        wf(*old(self)),
+    ensures
+        old(self).pending_release@.len() < MAX_PENDING_RELEASE ==> r is Ok
+            && final(self).pending_release@ == old(self).pending_release@.push(PendingRelease { packet_id, reason, state: SendState::Write { written: 0 } }),
+        old(self).pending_release@.len() >= MAX_PENDING_RELEASE ==> r == Err::<(), ProtocolError>(ProtocolError::InflightMetadataExhausted)
+            && final(self).pending_release@ == old(self).pending_release@,
+        final(self).retained@ == old(self).retained@ && final(self).pending_control@ == old(self).pending_control@
+            && final(self).used == old(self).used && bv(*final(self)) == bv(*old(self)),
+        wf(*final(self)),
+{
+        (match self.pending_release
+            .push(PendingRelease {
+                packet_id,
+                reason,
+                state: SendState::Write { written: 0 },
+            }) { Ok(__v) => Ok(__v), Err(_) => Err(ProtocolError::InflightMetadataExhausted) })
+    }
+
+fn ack_release(&mut self, packet_id: u16) -> (r: bool)
+    requires
+        wf(*old(self)),
+    ensures
+        r == has_rel(old(self).pending_release@, packet_id),
+        !r ==> final(self).pending_release@ == old(self).pending_release@,
+        r ==> final(self).pending_release@ =~= old(self).pending_release@.remove(first_rel(old(self).pending_release@, packet_id)),
+        final(self).retained@ == old(self).retained@ && final(self).pending_control@ == old(self).pending_control@
+            && final(self).used == old(self).used && bv(*final(self)) == bv(*old(self)),
+        wf(*final(self)),
+{
+        let Some(position) = self
+            .pending_release.position_of(|pending| -> (__r: bool) ensures __r == (pending.packet_id == packet_id) { pending.packet_id == packet_id })
+        else {
+            return false;
+        };
+        self.pending_release.remove(position);
+        proof { lemma_first_rel(old(self).pending_release@, packet_id, position as int); }
+
+        true
+    }
+
+fn has_pending_release(&self, packet_id: u16) -> (r: bool)
+    ensures
+        r == has_rel(self.pending_release@, packet_id),
+{
+        self.pending_release.any_of(|pending| -> (__r: bool) ensures __r == (pending.packet_id == packet_id) { pending.packet_id == packet_id })
     }
 }
 
